@@ -131,7 +131,9 @@ Definition oneclass_spec (K : list (list R)) (total : R) (a : list R) (rho e eeq
     the one of the second is 1 (= r / r), so the Lagrangian gradient is f_i - y_i as for C-SVC with C = 1/r *)
 Definition nusvc_obj (K : list (list R)) (a : list R) : R := / 2 * quadR K a.
 Definition nusvc_spec (K : list (list R)) (y : list bool) (cb total r : R) (a : list R) (rho e eeq enu : R) : Prop :=
-  in_box (svc_lo cb y) (svc_hi cb y) a /\ Rabs (Rsum a) <= eeq /  Rabs (l1R a * r - total) <= enu /  svc_margins cb cb e y a (dec_valuesR K a rho).
+  in_box (svc_lo cb y) (svc_hi cb y) a /\ Rabs (Rsum a) <= eeq /\
+  Rabs (l1R a * r - total) <= enu /\
+  svc_margins cb cb e y a (dec_valuesR K a rho).
 
 (** nu-SVR in b_i = alpha_i - alpha*_i: E0(b) = 1/2 b^T K b - y^T b; |b_i| <= c; sum_i b_i = 0;
     sum_i |b_i| <= c nu n (= [total]).  The multiplier of the last constraint is the width p of the tube (the
